@@ -204,6 +204,89 @@ Proof.
   unfold CoverInv. rewrite Hb, Hn2. nia.
 Qed.
 
+(** the configured number of winners is untouched by the set-up of these two contracts *)
+Lemma setup_call_nrw e b sd w c w' r :
+  setup_call c -> pay_wf (pay e) -> caller e <> sc_addr -> pay_token (st w) <> lp_token (st w) ->
+  exec H Base e b sd w c = Ok (w', r) -> nr_winning (st w') = nr_winning (st w).
+Proof.
+  intros Hc Hwf Hcs Htok E.
+  set (w0 := w <| evs := [] |> <| rlog := [] |> <| locks := [] |> <| seeds := sd |>).
+  destruct Hc as [la Hpos Hsc | | n | | | r0 | r0 | r0 | a | la Hsc | a].
+  - open_plain E w0.
+    match goal with Hd : add_tickets _ _ _ = Ok _ |- _ => unfold add_tickets in Hd; mon_inv end.
+    match goal with Hd : add_tickets_loop _ _ = Ok _ |- _ => apply add_tickets_loop_lpside in Hd; rename Hd into Hl end.
+    rewrite st_set_st. unfold lpside in Hl. change (st w0) with (st w) in Hl. congruence.
+  - unfold exec in E. cbn [payable] in E. fold w0 in E. cbn [bind] in E.
+    apply bind_ok in E. destruct E as (w1 & Hcr & E).
+    cbn [dispatch] in E. unfold ret0 in E. mon_inv.
+    match goal with Hd : deposit_launchpad_tokens _ _ _ = Ok _ |- _ => apply (deposit_iff _ _ _ _ Hwf) in Hd; destruct Hd as (_ & _ & _ & ->) end.
+    pose proof (credit_payment_st _ _ _ _ Hcr) as Hs1. rewrite st_set_st, Hs1. reflexivity.
+  - apply (exec_confirm_iff H Base e b sd w n w' r Hwf) in E. destruct E as (w1 & Hcr & _ & -> & _).
+    pose proof (credit_payment_st _ _ _ _ Hcr) as Hs1. unfold reset_outputs in Hs1. cbn in Hs1.
+    unfold confirm_effect. rewrite st_emit, st_set_st, Hs1. reflexivity.
+  - open_plain E w0.
+    match goal with Hd : pause_endpoint _ _ = Ok _ |- _ => apply gate_pause in Hd; destruct Hd as (_ & Hs & _) end. rewrite Hs. reflexivity.
+  - open_plain E w0.
+    match goal with Hd : unpause_endpoint _ _ = Ok _ |- _ => apply gate_unpause in Hd; destruct Hd as (_ & Hs & _) end. rewrite Hs. reflexivity.
+  - open_plain E w0.
+    match goal with Hd : set_confirmation_period_start_round _ _ _ = Ok _ |- _ => apply gate_set_conf in Hd; destruct Hd as (_ & _ & _ & Hs & _) end. rewrite Hs. reflexivity.
+  - open_plain E w0.
+    match goal with Hd : set_winner_selection_start_round _ _ _ = Ok _ |- _ => apply gate_set_ws in Hd; destruct Hd as (_ & _ & _ & Hs & _) end. rewrite Hs. reflexivity.
+  - open_plain E w0.
+    match goal with Hd : set_claim_start_round _ _ _ = Ok _ |- _ => apply gate_set_claim in Hd; destruct Hd as (_ & _ & _ & Hs & _) end. rewrite Hs. reflexivity.
+  - open_plain E w0.
+    match goal with Hd : set_support_address _ _ _ = Ok _ |- _ => unfold set_support_address in Hd; mon_inv end. reflexivity.
+  - unfold exec in E. cbn [payable] in E. fold w0 in E.
+    apply bind_ok in E. destruct E as (u & Hnp & E). apply no_payment_nil in Hnp. rewrite Hnp in E. cbn [credit_payment bind] in E.
+    cbn [dispatch] in E. unfold ret0, blacklist_endpoint in E. cbn [has_nft] in E. mon_inv.
+    match goal with Hd : add_users_to_blacklist _ _ _ = Ok _ |- _ => unfold add_users_to_blacklist in Hd; mon_inv end.
+    match goal with Hd : blacklist_loop _ _ _ = Ok _ |- _ => apply blacklist_loop_lpside in Hd; [destruct Hd as [Hl _]|exact Htok] end.
+    unfold lpside in Hl. change (st w0) with (st w) in Hl. congruence.
+  - open_plain E w0.
+    match goal with Hd : set_launchpad_tokens_per_winning_ticket _ _ _ = Ok _ |- _ =>
+      unfold set_launchpad_tokens_per_winning_ticket, try_set_tpt in Hd; mon_inv end. reflexivity.
+Qed.
+
+Theorem setup_reach_nrw v w : plain v -> setup_reach H v w ->
+  exists e lp tpt0 ptok price0 nrw conf ws claim x s,
+    deploy v e lp tpt0 ptok price0 nrw conf ws claim x = Ok s /\ nr_winning (st w) = nrw.
+Proof.
+  intros Hv. induction 1 as [e lp tpt0 ptok price0 nrw conf ws claim x s Hd Hlp | w e b sd c w' r Hr IH Hc Hwf Hcs E].
+  - exists e, lp, tpt0, ptok, price0, nrw, conf, ws, claim, x, s. split; [exact Hd|].
+    unfold deploy in Hd.
+    destruct Hv as [-> | ->]; cbn [has_nft is_v1 has_lock has_extra negb] in Hd; mon_inv;
+      repeat match goal with Hl : lock_init _ _ _ _ _ = Ok _ |- _ => unfold lock_init in Hl; mon_inv end;
+      match goal with Hinit : init_base _ _ _ _ _ _ _ _ _ _ = Ok _ |- _ =>
+        unfold init_base, try_set_tpt, try_set_ticket_price, try_set_nr_winning in Hinit; mon_inv end;
+      reflexivity.
+  - destruct IH as (e0 & lp & tpt0 & ptok & price0 & nrw & conf & ws & claim & x & s & Hd & Hn).
+    exists e0, lp, tpt0, ptok, price0, nrw, conf, ws, claim, x, s. split; [exact Hd|].
+    rewrite (exec_plain H v _ _ _ _ _ Hv Hc) in E.
+    rewrite (setup_call_nrw _ _ _ _ _ _ _ Hc Hwf Hcs (cp_tok _ (setup_reach_CovPre v w Hv Hr)) E). exact Hn.
+Qed.
+
+(** C03 / C12 for the two contracts without guarantees, from deployment: the winners are the
+    Fisher-Yates winners and their number is min(configured at deployment, confirmed tickets) *)
+Theorem deployed_plain_winners v w0 lf wf ef bf w1 ls ws es bs w2 sd rest :
+  plain v -> setup_reach H v w0 ->
+  after_interrupted filter_tickets lf w0 = Some wf -> filter_tickets ef bf wf = Ok (w1, 0) ->
+  seeds w1 = sd :: rest ->
+  after_interrupted (select_winners H) ls w1 = Some ws -> select_winners H es bs ws = Ok (w2, 0) ->
+  exists e lp tpt0 ptok price0 nrw conf wsr claim x s (l : list (N * N)),
+    deploy v e lp tpt0 ptok price0 nrw conf wsr claim x = Ok s /\
+    let total := sumN (map (confirmed (st w0)) (map fst l)) in
+    let k := N.min nrw total in
+    let wins := fst (fy (N.to_nat k) (range_ids 1 total) (rng_words H (N.to_nat k) {| r_seed := sd; r_index := 0 |})) in
+    nr_winning (st w2) = k /\ (forall t, status (st w2) t = true <-> In t wins) /\ NoDup wins.
+Proof.
+  intros Hv Hr Haf Ef Hs Has Es.
+  destruct (setup_reach_nrw v w0 Hv Hr) as (e & lp & tpt0 & ptok & price0 & nrw & conf & wsr & claim & x & s & Hd & Hn).
+  destruct (deployed_pipeline H v w0 lf wf ef bf w1 ls ws es bs w2 sd rest Hv Hr Haf Ef Hs Has Es) as (l & Hp).
+  cbn zeta in Hp. destruct Hp as (_ & _ & _ & Hk & Hst & Hnd & _).
+  exists e, lp, tpt0, ptok, price0, nrw, conf, wsr, claim, x, s, l. split; [exact Hd|]. cbn zeta.
+  rewrite <- Hn. auto.
+Qed.
+
 (** ... and to the end: any order of winners' claims and owner withdrawals afterwards keeps both
     ledgers; after the owner's (first) withdrawal the balance is exactly tokens-per-ticket x the winning
     tickets not yet claimed, zero when they all are.  [locked]: launchpad-locked-tokens, whose claims
